@@ -1197,6 +1197,7 @@ def threshold_rule(ctx, rule, modules):
     if len(fx) != 1 or fx[0][3] != 2:
         raise AnalysisError(f"{rule}: built-in fixture (|cross| < 1e-8, degree 2) not recognised by the matcher: {fx}")
     seen = {}       # id(compare node) -> (module, fn, node, expr, lit, deg, via)
+    mixed = []      # comparisons whose two sides are both dimensional
     for modname in modules:
         m = ctx.repo.module(modname)
         for q, fn in m.funcs.items():
@@ -1205,10 +1206,12 @@ def threshold_rule(ctx, rule, modules):
             world = GEO.World(ctx.repo)
             it = GEO.Interp(world, m.name, fn).run()
             found = [(m.name, fn, c, None) for c in it.compares]
+            mixed += [(m.name, fn, c, None) for c in it.mixed]
             for (cm, cname), lst in world.calls.items():
                 cfn = ctx.repo.modules[cm].funcs[cname]
                 for amap, sub in lst:
                     found += [(cm, cfn, c, q) for c in sub.compares]
+                    mixed += [(cm, cfn, c, q) for c in sub.mixed]
             for cm, cfn, (node, expr, lit, deg), via in found:
                 prev = seen.get(id(node))
                 if prev is None or (prev[5] == 0 and deg != 0):
@@ -1223,6 +1226,21 @@ def threshold_rule(ctx, rule, modules):
                   "the outcome of the test changes under a uniform scaling of the mesh: well-shaped elements of a mesh given in small "
                   "(or large) units are treated differently, so the quantity neither scales with the right power nor stays invariant",
                   note=f"{q}: `{au.src(node)}` is dimensionless")
+    done = {}
+    for cm, cfn, (node, l, dl, r, dr), via in mixed:
+        if done.get(id(node), True):          # a homogeneous reading never hides an inhomogeneous one of the same test
+            done[id(node)] = (dl == dr)
+            if dl != dr:
+                bad_mixed = (cm, cfn, node, l, dl, r, dr, via)
+                done[id(node)] = False
+                ctx.fail(rule, ctx.site(cm, cfn, node),
+                         f"{cfn.name}: `{au.src(node)}` compares `{au.src(l)}` (a length to the power {dl:g}) with `{au.src(r)}` "
+                         f"(a length to the power {dr:g})" + (f" (reached from {via} with arguments built from mesh.vertices)" if via else ""),
+                         "the two sides of the test scale differently under a uniform scaling of the mesh, so its outcome depends on the unit")
+    for k, homogeneous in done.items():
+        if homogeneous:
+            n += 1
+            ctx.ok(rule, ctx.site(GEOM, "<module>"), "a comparison of two dimensional expressions is homogeneous")
     return n
 
 
